@@ -1,6 +1,7 @@
 package main
 
 import (
+	"go/token"
 	"go/types"
 	"regexp"
 	"sort"
@@ -248,4 +249,50 @@ func canonFields(c *Ctx, chains []string) []string {
 	}
 	sort.Strings(out)
 	return out
+}
+
+// infoFieldsOfRowFuncs: a row that hands the whole Info to a function of the
+// template's FuncMap (`{{ version .Info }}`) is fed from the Info fields that
+// function reads - in itself or in the module functions it calls with that
+// Info. ok is false when the row is not of that shape or a function cannot be
+// resolved to module code.
+func infoFieldsOfRowFuncs(c *Ctx, ti tmplInfo, row tmplRow) (fields []string, fns []*ssa.Function, ok bool) {
+	pf := canonFields(c, row.Printed)
+	if len(pf) != 1 || pf[0] != "Info" || len(row.Funcs) == 0 {
+		return nil, nil, false
+	}
+	set := map[string]bool{}
+	for _, name := range row.Funcs {
+		fs := templateFuncs(c, ti.Fn, name)
+		if len(fs) == 0 {
+			return nil, nil, false
+		}
+		for _, f := range fs {
+			if len(f.Blocks) == 0 || !c.isModuleFunc(f) {
+				return nil, nil, false
+			}
+			fns = append(fns, f)
+			for g := range c.Reach(f) {
+				if !c.isModuleFunc(g) {
+					continue
+				}
+				forEachInstr(g, func(in ssa.Instruction) {
+					ld, isLd := in.(*ssa.UnOp)
+					if !isLd || ld.Op != token.MUL {
+						return
+					}
+					pth, root := addrPath(ld.X)
+					if root == nil || pth == "" || !isPtrToNamed(root.Type(), modPath, "Info") {
+						return
+					}
+					set[canonField(c, "Info."+pth)] = true
+				})
+			}
+		}
+	}
+	for k := range set {
+		fields = append(fields, k)
+	}
+	sort.Strings(fields)
+	return fields, fns, len(fields) > 0
 }
